@@ -55,6 +55,7 @@ func TestC14Phased(t *testing.T) {
 	ev.SetRule(c14Rule)
 	checkPropN(t, "C14", 60, func(t *rapid.T) {
 		cfg := genC03Config(t)
+		cfg.SegVersion = rapid.SampledFrom([]int{0, 0, 0, 11, 13, 15, 16}).Draw(t, "segv") // the backup must be readable with the source's segment format
 		cfg.UnsafeBatch = true
 		cfg.KeepSnapshots = rapid.SampledFrom([]int{1, 1, 2}).Draw(t, "keep")
 		dir := TempDir(t)
@@ -330,6 +331,7 @@ func TestC14Lifecycle(t *testing.T) {
 	const nPos = 8 // boundaries p0..p7 around the seven steps
 	checkPropN(t, "C14", 150, func(t *rapid.T) {
 		cfg := genC03Config(t)
+		cfg.SegVersion = rapid.SampledFrom([]int{0, 0, 0, 11, 13, 15, 16}).Draw(t, "segv") // the backup must be readable with the source's segment format
 		cfg.UnsafeBatch = true
 		cfg.NapMS = 0
 		cfg.KeepSnapshots = rapid.SampledFrom([]int{1, 1, 1, 2}).Draw(t, "keep")
